@@ -1,5 +1,7 @@
 import Autobean.Model.Indent
 import Autobean.Proofs.Indent
+import Autobean.Proofs.RepKeep
+import Autobean.Properties.C03
 /-!
 C18 — children created from values are indented by the documented rule.
 
@@ -8,7 +10,8 @@ Model: `Autobean/Model/Indent.lean` (`RepeatedMetaItemWrapper._get_indent`, `_ge
 theorems say what it computes.  That the created item lands in the parent's repeated field without touching
 any other token ("a raw node keeps its own indent verbatim", "no existing line's indentation changes") is the
 frame property of repeated-field insertion (C03, `rep_insert_frame`) and is tied here by the oracle of
-`harness/props/c18.py`; `append_keeps_indents_partial` states the list-level part.
+`harness/props/c18.py`; `append_keeps_indents_partial` states the list-level part, `insert_keeps_indents` /
+`append_keeps_indents` the token-level statement (through C03's `rep_insert_frame` / `rep_append_frame`).
 -/
 namespace Autobean.C18
 open Autobean.Indent
@@ -85,12 +88,114 @@ theorem indentOf_commentFormat (indent value : Str) (hi : '\n' ∉ indent) (hs :
 theorem comment_setter_indent (ownerIndent : Option Str) :
     commentIndentFor ownerIndent = ownerIndent.getD [] := rfl
 
-/-- List-level frame of an append (`raw_meta.append(item)` / mapping assignment creating an item): the indents of
+/-- (Superseded by `insert_keeps_indents` / `append_keeps_indents` below; kept.)  List-level frame of an append (`raw_meta.append(item)` / mapping assignment creating an item): the indents of
 the existing items are unchanged and the appended item's indent is its own.  Partial: that the *tokens* of the
 other lines are untouched is C03's `rep_insert_frame`, not restated here. -/
 theorem append_keeps_indents_partial {α} (indentOfItem : α → Str) (items : List α) (x : α) :
     (items ++ [x]).map indentOfItem = items.map indentOfItem ++ [indentOfItem x] := by
   simp
+
+/-! ## Existing indents unchanged, at token level (through the C03 frame theorems) -/
+
+open Autobean.Seq Autobean.Rep in
+/-- The `Indent` token of an item (a posting, a meta item): its first token when that token has kind `K`
+(`K` = the kind number the `INDENT` token class has in the store dump); identity, kind and text. -/
+def indentTok (K : Nat) (item : List Tk) : Option Tk := item.head?.filter (·.kind == K)
+
+section
+open Autobean.Seq Autobean.Rep
+
+/-- **`insert(index, item)` keeps every existing indent, token for token.**  For a well-formed repeated region
+(`store = L ++ ph :: gap₀ ++ item₀ ++ … ++ R`, `L`, `R` and the gaps arbitrary) and any raw item `v`:
+* the call succeeds, the new store is `L ++ (region') ++ R` — the tokens outside the region are untouched;
+* the items of `region'` are the old items, each with its **exact token list** (ids, kinds, texts), and `v`
+  verbatim at the insertion point ("a raw node keeps its own indent"); positionally: old item `k` is item `k`
+  (before the insertion point) or `k + 1` (behind it) of the result;
+* hence the `INDENT` token at the head of each old item is the same token object with the same text, and the new
+  item's is its own;
+* the old store is cut at one place and a window put in: `store = P ++ Q`, `store' = P ++ X ++ Q` — no existing
+  token of any line is removed, moved or rewritten (so `store` is a sublist of `store'`).
+Supersedes `append_keeps_indents_partial`. -/
+theorem insert_keeps_indents {c : Cfg} {st : St} {L R : List Tk} {ph : Tk} {pre post : List Seg}
+    (K : Nat) (index : Int) (v : List Tk) (wf : RegionWF c st.store st.items L R ph (pre ++ post))
+    (hk : insertPos index st.items.length = pre.length) :
+    ∃ st' segs', insert c st index v = .ok st' ∧
+      st'.store = L ++ layout ph segs' ++ R ∧ st'.items = spans segs' ∧
+      itemsOf segs' = itemsOf pre ++ [v] ++ itemsOf post ∧
+      (∀ k, (itemsOf segs')[if k < pre.length then k else k + 1]? = (itemsOf (pre ++ post))[k]?) ∧
+      (itemsOf segs').map (indentTok K) =
+        (itemsOf pre).map (indentTok K) ++ [indentTok K v] ++ (itemsOf post).map (indentTok K) ∧
+      (∃ P X Q, st.store = P ++ Q ∧ st'.store = P ++ X ++ Q) ∧ st.store.Sublist st'.store := by
+  obtain ⟨segs', ctr', hins, hsegs, hitems⟩ := C03.rep_insert_frame index v wf hk
+  obtain ⟨P, X, Q, hold, hnew⟩ := insertSegs_window c L R ph pre post st.ctr [v]
+  have hw : st.store = P ++ Q := by rw [wf.store_eq, hold]
+  have hw' : L ++ layout ph segs' ++ R = P ++ X ++ Q := by rw [hsegs, hnew]
+  refine ⟨_, segs', hins, rfl, rfl, hitems, ?_, ?_, ⟨P, X, Q, hw, hw'⟩, ?_⟩
+  · intro k
+    rw [hitems]
+    have := getElem?_insert_shift (itemsOf pre) (itemsOf post) v k
+    simpa [itemsOf] using this
+  · rw [hitems]; simp
+  · show st.store.Sublist (L ++ layout ph segs' ++ R)
+    rw [hw, hw', List.append_assoc]
+    exact List.Sublist.append (List.Sublist.refl _) (List.sublist_append_right _ _)
+
+/-- The same for one old item: if item `k` of the region starts with an `INDENT` token `t`, then after the insertion
+the item at `k` (resp. `k + 1`) has the same token list and so starts with the very same `t`. -/
+theorem insert_keeps_indent_token {c : Cfg} {st : St} {L R : List Tk} {ph : Tk} {pre post : List Seg}
+    (K : Nat) (index : Int) (v : List Tk) (wf : RegionWF c st.store st.items L R ph (pre ++ post))
+    (hk : insertPos index st.items.length = pre.length) {k : Nat} {item : List Tk} {t : Tk}
+    (hitem : (itemsOf (pre ++ post))[k]? = some item) (ht : indentTok K item = some t) :
+    ∃ st' segs', insert c st index v = .ok st' ∧ st'.store = L ++ layout ph segs' ++ R ∧
+      (itemsOf segs')[if k < pre.length then k else k + 1]? = some item ∧ indentTok K item = some t ∧
+      t ∈ st'.store := by
+  obtain ⟨st', segs', hins, hstore, _, _, hpos, _, _, hsub⟩ := insert_keeps_indents K index v wf hk
+  refine ⟨st', segs', hins, hstore, by rw [hpos k, hitem], ht, hsub.subset ?_⟩
+  -- `t` is the head of an old item, which lies in the old store
+  have hmem : item ∈ itemsOf (pre ++ post) := List.mem_of_getElem? hitem
+  have hthd : t ∈ item := by
+    unfold indentTok at ht
+    cases hh : item.head? with
+    | none => rw [hh] at ht; cases ht
+    | some x =>
+      rw [hh] at ht
+      simp only [Option.filter] at ht
+      split at ht
+      · cases ht; exact List.mem_of_head? hh
+      · cases ht
+  rw [wf.store_eq]
+  simp only [itemsOf, List.mem_map] at hmem
+  obtain ⟨sg, hsg, rfl⟩ := hmem
+  have : t ∈ body (pre ++ post) := by
+    clear hitem hpos hsub wf hk
+    generalize pre ++ post = segs at hsg
+    induction segs with
+    | nil => cases hsg
+    | cons a r ih =>
+      simp only [body, List.mem_append]
+      rcases List.mem_cons.mp hsg with rfl | h
+      · exact Or.inl (Or.inr hthd)
+      · exact Or.inr (ih h)
+  simp [layout, this]
+
+/-- **`append(item)`**: as `insert_keeps_indents` at the end of the list. -/
+theorem append_keeps_indents {c : Cfg} {st : St} {L R : List Tk} {ph : Tk} {segs : List Seg}
+    (K : Nat) (v : List Tk) (wf : RegionWF c st.store st.items L R ph segs) :
+    ∃ st' segs', append c st v = .ok st' ∧
+      st'.store = L ++ layout ph segs' ++ R ∧ st'.items = spans segs' ∧
+      itemsOf segs' = itemsOf segs ++ [v] ∧
+      (itemsOf segs').map (indentTok K) = (itemsOf segs).map (indentTok K) ++ [indentTok K v] ∧
+      (∃ P X Q, st.store = P ++ Q ∧ st'.store = P ++ X ++ Q) ∧ st.store.Sublist st'.store := by
+  obtain ⟨segs', ctr', happ, hsegs, hitems⟩ := C03.rep_append_frame v wf
+  obtain ⟨P, X, Q, hold, hnew⟩ := insertSegs_window c L R ph segs [] st.ctr [v]
+  have hw : st.store = P ++ Q := by rw [wf.store_eq, ← hold]; simp
+  have hw' : L ++ layout ph segs' ++ R = P ++ X ++ Q := by rw [hsegs, hnew]
+  refine ⟨_, segs', happ, rfl, rfl, hitems, by rw [hitems]; simp, ⟨P, X, Q, hw, hw'⟩, ?_⟩
+  show st.store.Sublist (L ++ layout ph segs' ++ R)
+  rw [hw, hw', List.append_assoc]
+  exact List.Sublist.append (List.Sublist.refl _) (List.sublist_append_right _ _)
+
+end
 
 /-! ## non-vacuity -/
 
@@ -103,5 +208,29 @@ example : commentFormat "  ".toList "lead\n\nmore\r\n".toList = "  ; lead\n  ;\n
 example : commentLines "\t".toList "a\nb".toList = ["\t; a\n".toList, "\t; b".toList] := by decide
 example : indentOf "    ; x\n    ; y".toList = "    ".toList := by decide
 example : splitLines "a\n\nb\n".toList = ["a\n".toList, "\n".toList, "b\n".toList, []] := by decide
+
+/-! A meta region with two indented items (`··a:·1` / `····b:·2`, kinds: 1 newline, 2 INDENT, 3 key, 4 blank, 5 value);
+a third item with its own indent `\t` is inserted in the middle: the hypotheses of `insert_keeps_indents` hold and the
+old items' `INDENT` tokens (ids 11 and 21, texts `··` and `····`) are found unchanged around the new one. -/
+section
+open Autobean.Seq Autobean.Rep
+def exPh : Tk := ⟨1, 0, []⟩
+def exSegs : List Seg :=
+  [([⟨10, 1, ['\n']⟩], [⟨11, 2, [' ', ' ']⟩, ⟨12, 3, ['a', ':']⟩, ⟨13, 4, [' ']⟩, ⟨14, 5, ['1']⟩]),
+   ([⟨20, 1, ['\n']⟩], [⟨21, 2, [' ', ' ', ' ', ' ']⟩, ⟨22, 3, ['b', ':']⟩, ⟨23, 4, [' ']⟩, ⟨24, 5, ['2']⟩])]
+def exCfg : Cfg := ⟨[⟨0, 1, ['\n']⟩], [⟨0, 1, ['\n']⟩], 1⟩
+def exL : List Tk := [⟨2, 6, ['x']⟩]
+def exR : List Tk := [⟨3, 1, ['\n']⟩]
+def exSt : St := ⟨exL ++ layout exPh exSegs ++ exR, spans exSegs, 100⟩
+def exNew : List Tk := [⟨31, 2, ['\t']⟩, ⟨32, 3, ['c', ':']⟩]
+
+example : RegionWF exCfg exSt.store exSt.items exL exR exPh (exSegs.take 1 ++ exSegs.drop 1) :=
+  ⟨rfl, by unfold Distinct; decide, rfl, by unfold ItemsNonempty; decide, rfl⟩
+example : insertPos 1 exSt.items.length = (exSegs.take 1).length := by decide
+example : (insert exCfg exSt 1 exNew).toOption.map (fun st' => st'.store.filter (·.kind == 2)) =
+    some [⟨11, 2, [' ', ' ']⟩, ⟨31, 2, ['\t']⟩, ⟨21, 2, [' ', ' ', ' ', ' ']⟩] := by decide
+example : (itemsOf exSegs).map (indentTok 2) = [some ⟨11, 2, [' ', ' ']⟩, some ⟨21, 2, [' ', ' ', ' ', ' ']⟩] ∧
+    indentTok 2 exNew = some ⟨31, 2, ['\t']⟩ ∧ indentTok 2 [(⟨12, 3, ['a', ':']⟩ : Tk)] = none := by decide
+end
 
 end Autobean.C18
